@@ -23,5 +23,7 @@ RULES = [
     ("C06.addskel", lambda c, r: __import__("sa.rules.lfht2", fromlist=["x"]).rule_addskel(c, r, "C06.addskel")),
     ("C06.entry", lambda c, r: __import__("sa.rules.lfht2", fromlist=["x"]).rule_entry(c, r, "C06.entry")),
     ("C06.addprev", lambda c, r: __import__("sa.rules.lfht2", fromlist=["x"]).rule_addprev(c, r, "C06.addprev")),
+    ("C06.addreplace", lambda c, r: __import__("sa.rules.lfht2", fromlist=["x"]).rule_addreplace(c, r, "C06.addreplace")),   # what add_replace returns: NULL iff own node inserted, the old node only after a successful replace, retry otherwise
+    ("C06.rhinit", lambda c, r: __import__("sa.rules.lfht2", fromlist=["x"]).rule_rhinit(c, r, "C06.rhinit")),   # node->reverse_hash = bit_reverse_ulong(hash) before linking, in every entry point
 ]
 FLOORS = {}
